@@ -821,7 +821,10 @@ pub fn classify_hang(rep: &mut Report, gdb_text: &str, what: &str) {
         let waiting = has("futex_wait") || has("__lll_lock_wait") || has("pthread_mutex_lock") || has("__futex_abstimed_wait");
         let acquiring = has("RwLock::read") || has("RwLock::write") || has("read_contended") || has("write_contended") || has("Mutex::lock") || has("lock_contended") || has("mdb_txn_begin") || has("pthread_mutex_lock");
         let idle = has("JoinHandle") || has("pthread_join") || has("__pthread_clockjoin") || has("thread::sleep") || has("nanosleep") || has("Thread::park") || has("thread::park") || has("hang_verdict") || has("Command::output") || has("Barrier::wait") || has("Condvar::wait");
-        if waiting && acquiring && frames.iter().any(in_lib) {
+        // a thread that is inside the library but parked by the harness itself (at a verif point) is neither: it may
+        // hold a lock and will be released by the scheduler
+        let idle = idle && !frames.iter().any(|l| in_lib(l) && !l.contains("verif::point"));
+        if waiting && acquiring && frames.iter().any(in_lib) && !has("pvmon::conc::on_point") {
             kinds.0 |= has("write_contended") || has("RwLock::write") || has("mdb_txn_begin");
             kinds.1 |= has("read_contended") || has("RwLock::read");
             let inner: Vec<String> = frames.iter().filter(|l| in_lib(l)).take(2).map(|l| l.split(" in ").last().unwrap_or(l).split(" (").next().unwrap_or("").trim_start_matches(|c: char| c == '#' || c.is_ascii_digit() || c == ' ').to_string()).collect();
